@@ -44,7 +44,7 @@ def work(job):
     os.makedirs(scratch, exist_ok=True)
     loadjobs = []
     for ident, prog, inputs in items:
-        src = A.pp(prog)
+        src = prog if isinstance(prog, str) else A.pp(prog)
         for opt in (False, True):
             tag = f"{ident}-{'O1' if opt else 'O0'}"
             rec = {"id": tag, "src": src, "opt": opt, "prog": prog, "inputs": inputs}
@@ -112,7 +112,20 @@ def run(ctx, args):
              ("while-nested", [A.while_(B("<", V("a"), L(5)), A.block([A.while_(B("<", V("g"), L(4)), A.block([A.estmt(A.asg(V("g"), B("+", V("g"), L(1))))])), inc_a])), A.ret(B("+", V("a"), V("g")))])]
     items += [(f"loopfirst-{nm}", A.prog([("g", A.INT)], [A.func("f", [("a", A.INT)], A.INT, A.block(body), True)]),
                [({"a": A.enc(a, A.INT)}, {"g": A.enc(2, A.INT)}) for a in (1, 9)]) for nm, body in first]
+    # ++ on a float variable next to the literal 1.0 (two constants that compare equal), entered and not entered
+    items.append(("floatinc", A.prog([], [A.func("f", [("a", A.FLOAT)], A.FLOAT, A.block([
+        A.if_(B(">", V("a"), A.lit_f(10, 0)), A.block([A.estmt(A.inc("a", "+", False)), A.estmt(A.inc("a", "-", True)), A.estmt(A.inc("a", "+", True))])),
+        A.ret(B("+", B("+", V("a"), A.lit_f(1, 0)), L(1)))]), True)]), [({"a": A.enc(v, A.FLOAT)}, {}) for v in (12.0, 0.5)]))
+    # a module with an import (given as text: the language semantics of the reference has no imports); lib.nslir is stored next to it
     scratch = str(ctx.scratch / "c17")
+    os.makedirs(scratch, exist_ok=True)
+    open(os.path.join(scratch, "lib.nsl"), "w").write("export function sq(int a) -> int\n{\n  return a * a;\n}\nexport function half(float a) -> float\n{\n  return a * 0.5;\n}\n")
+    p = subprocess.run([sys.executable, str(ctx.repo / "nslc.py"), "lib.nsl", "-o", "lib.nslir"], cwd=scratch, capture_output=True, text=True, env=dict(os.environ, PYTHONPATH=str(ctx.repo)))
+    if not os.path.exists(os.path.join(scratch, "lib.nslir")):
+        raise common.Machinery("could not store lib.nslir: " + (p.stdout + p.stderr)[-200:])
+    os.chdir(scratch)           # imports are resolved relative to the working directory
+    items.append(("imports", 'import "lib";\nexport function f(int a) -> int\n{\n  if (a > 2)\n  {\n    return sq(a) + 1;\n  }\n  return a;\n}\n', [({"a": A.enc(v, A.INT)}, {}) for v in (5, 1)]))
+    items.append(("imports2", 'import "lib";\nexport function f(float a) -> float\n{\n  float r = half(a);\n  return r + sq(3);\n}\n', [({"a": A.enc(v, A.FLOAT)}, {}) for v in (4.0, 0.5)]))
     jobs = [(items[i:i + 12], str(ctx.repo), str(common.VERIF / "harness"), scratch) for i in range(0, len(items), 12)]
     with mp.Pool(16) as pool:
         recs = [r for part in pool.map(work, jobs) for r in part]
@@ -123,6 +136,8 @@ def run(ctx, args):
         if base in seen:
             continue
         seen[base] = True
+        if isinstance(r["prog"], str):
+            continue                        # given as text: not run by NslSem
         progs.append(r["prog"])
         for j, (a, gl) in enumerate(r["inputs"]):
             cases.append({"id": f"{base}#{j}", "p": len(progs), "entry": "f", "args": a, "globals": gl})
@@ -133,7 +148,7 @@ def run(ctx, args):
     fns = []
     for r in recs:
         if "loaded" in r and "proj" in r["loaded"]:
-            table = [{"name": f["name"], "argc": f["argc"]} for f in r["loaded"]["proj"]["funcs"]]
+            table = r["loaded"].get("table") or [{"name": f["name"], "argc": f["argc"]} for f in r["loaded"]["proj"]["funcs"]]
             fns += [{"id": r["id"] + "/" + f["name"], "fn": f, "table": table} for f in r["loaded"]["proj"]["funcs"]]
     wf_bad = {}
     for lo in range(0, len(fns), 4000):
@@ -186,7 +201,9 @@ def run(ctx, args):
                 ctx.violation("behaviour-differs", f"compiled module: {o0['ret_enc'] if o0['ok'] else o0['exc']}; reloaded module: {o1['ret_enc'] if o1['ok'] else str(o1['exc']) + ': ' + str(o1.get('msg'))}", case)
                 okall = False
                 break
-            s = sem[f"{r['id'].rsplit('-', 1)[0]}#{j}"]
+            s = sem.get(f"{r['id'].rsplit('-', 1)[0]}#{j}")
+            if s is None:
+                continue
             kind, detail = semrun.judge(s, {"ok": o0["ok"], "ret": o0["ret"], "globals": o0["globals"] or {}, "exc": o0.get("exc"), "msg": o0.get("msg"), "where": o0.get("where"), "fuel": o0.get("fuel"), "steps": o0.get("steps")})
             counts["sem-" + kind] = counts.get("sem-" + kind, 0) + 1
         if okall:
